@@ -3,7 +3,7 @@ from pgsa import extract, core, rules6
 p,_,_ = extract.extract('all')
 F = core.Facts(p)
 v = "-v" in sys.argv
-names = [a for a in sys.argv[1:] if a != "-v"] or ["who_grows","index_directed_creation","matrix_cell_bounds","list_search_direction","reversed_one_to_one","condensation_simple","entry_arms","negcheck_unfiltered","scratch_grow_guard","label_reset_whole","ap_no_disc_zero","graph6_ids","closure_index_type","csr_mirror_enumeration","fw_diagonal_first","fw_infinity_guard","spfa_fifo","dsatur_count","undirected_adaptor_symm"]
+names = [a for a in sys.argv[1:] if a != "-v"] or ["who_grows","index_directed_creation","matrix_cell_bounds","list_search_direction","reversed_one_to_one","condensation_simple","entry_arms","negcheck_unfiltered","scratch_grow_guard","label_reset_whole","ap_no_disc_zero","graph6_ids","closure_index_type","csr_mirror_enumeration","fw_diagonal_first","fw_infinity_guard","spfa_fifo","dsatur_count","undirected_adaptor_symm","negcycle_last_relaxation"]
 for n in names:
     r = getattr(rules6,n)(F)
     print(n, "instances", len(r.instances), "violations", len(r.violations), "floor", r.floor)
